@@ -429,6 +429,9 @@ func extractLocks(outDir string) error {
 			}
 		}
 	}
+	if err := emitLockOrder(outDir, prog, funcs, cg, inMine); err != nil {
+		return err
+	}
 	return emitLockFacts(outDir, facts)
 }
 
